@@ -9,13 +9,14 @@ import (
 // Generators of cases. Every choice comes from the Rng passed in.
 
 type GenParams struct {
-	MaxCap        int // descriptor capacity is drawn from 0..MaxCap
-	MinOps        int
-	MaxOps        int
-	BigEvery      int // one object in BigEvery may be large (tens of KiB); 0 = never
-	Backend       string
-	NoDefaultTime bool // never rely on the wall clock (C12 variants)
-	Queries       int  // up to this many read-only queries after each step
+	MaxCap         int // descriptor capacity is drawn from 0..MaxCap
+	MinOps         int
+	MaxOps         int
+	BigEvery       int // one object in BigEvery may be large (tens of KiB); 0 = never
+	Backend        string
+	NoDefaultTime  bool // never rely on the wall clock (C12 variants)
+	Queries        int  // up to this many read-only queries after each step
+	PartitionHeavy bool // theme: mostly partitions (primary / system / data / overlay juggling)
 }
 
 var sizePoolSmall = []int{0, 0, 1, 2, 3, 7, 16, 31, 100, 127, 128, 129, 255, 383, 384, 385, 511, 512, 513, 600}
@@ -105,7 +106,11 @@ func sifHashType(h int) int32 {
 
 func genMeta(r *Rng, typ int32, allowPrim bool) (Meta, bool) {
 	// type-specific metadata mostly, raw/none/err sometimes
-	switch r.Intn(12) {
+	k := r.Intn(12)
+	if typ == DataPartition && k < 3 && r.Chance(2, 3) {
+		k = 5
+	}
+	switch k {
 	case 0:
 		return Meta{}, false // no option
 	case 1:
@@ -174,7 +179,7 @@ func (v *imgView) someID(r *Rng) uint32 {
 func GenDInput(r *Rng, p GenParams, v *imgView, allowBig bool) DInput {
 	d := DInput{FailAfter: -1}
 	d.Type = Pick(r, AllDataTypes)
-	if r.Chance(1, 4) {
+	if r.Chance(1, 4) || p.PartitionHeavy && r.Chance(2, 3) {
 		d.Type = DataPartition
 	}
 	n := Pick(r, sizePoolSmall)
@@ -318,6 +323,7 @@ func Sha256Hex(b []byte) string {
 // GenHistory generates a creation followed by a history of operations.
 func GenHistory(r *Rng, id int, p GenParams) Case {
 	c := Case{ID: id, Backend: p.Backend}
+	p.PartitionHeavy = r.Chance(1, 4)
 	co := &COpts{}
 	c.Create = co
 	capacity := r.Intn(p.MaxCap + 1)
